@@ -313,6 +313,8 @@ pub const ORIG_CLASSES: &[&str] = &[
     "kotlin.jvm.internal.Intrinsics",
     "$Weird",
     "p.$$Q$R",
+    "M",
+    "R",
 ];
 
 pub const OBF_METHODS: &[&str] = &["a", "b", "aa", "<init>", "c", "<clinit>", "a$b", "\u{1F600}", "\u{FF21}"];
@@ -351,6 +353,7 @@ pub const FILE_NAMES: &[&str] = &[
     "Ünï.kt",
     "a b.kt",
     "x:y.kt",
+    "src/main/kotlin/Foo.kt",
 ];
 
 pub const HEADER_KEYS: &[&str] =
@@ -1026,7 +1029,9 @@ pub fn size_sweep_ast(sizes: &[usize]) -> MapAst {
         let rev = if n % 5 == 0 && n >= 3 { Some(n / 2) } else { None };
         for i in 0..n {
             let shift = if rev.map_or(false, |r| i > r) { 20 } else { 0 };
-            let (st, en) = if rev == Some(i) { (2 * i as u128 + 20, 2 * i as u128) } else { (1 + 2 * i as u128 + shift, 2 + 2 * i as u128 + shift) };
+            // classes with n % 5 == 1: every range ends on the line the next one starts with
+            let touch = if n % 5 == 1 { 1 } else { 0 };
+            let (st, en) = if rev == Some(i) { (2 * i as u128 + 20, 2 * i as u128) } else { (1 + 2 * i as u128 + shift, 2 + 2 * i as u128 + shift + touch) };
             items.push(Item::Method(MethodEntry {
                 start: Some(st),
                 end: Some(en),
